@@ -125,6 +125,14 @@ func genScenario(r *hutil.Rng, stream string) Scenario {
 				live = append(live, c)
 			}
 		}
+		if i > 0 && r.Chance(1, 7) {
+			// one pass of the two-phase timeout checker; connections it may have closed are not reused
+			sc.Ops = append(sc.Ops, Op{K: "check", Expired: r.Chance(1, 2)})
+			for c := range chainLast {
+				dead[c] = true
+			}
+			live = nil
+		}
 		if len(live) > 0 && r.Chance(1, 8) {
 			// the pool retires a connection (idle limit / lifetime)
 			c := live[r.Intn(len(live))]
@@ -179,6 +187,9 @@ func genScenario(r *hutil.Rng, stream string) Scenario {
 			}
 			sc.Ops = append(sc.Ops, p)
 		}
+	}
+	if r.Chance(1, 5) {
+		sc.Ops = append(sc.Ops, Op{K: "check", Expired: r.Chance(1, 2)})
 	}
 	for _, t := range autos {
 		if r.Chance(5, 6) {
@@ -350,6 +361,36 @@ func enumLongXid() []Scenario {
 	return out
 }
 
+// the two-phase timeout checker between phase one and phase two: within and after the hold time,
+// over prepared, failed-START and stuck phase-one connections, both server families: enumerated
+func enumCheck() []Scenario {
+	var out []Scenario
+	x := []string{"10.0.0.7:8091:2612345678901234567", "10.0.0.9:8091:77"}
+	bs := []int64{2612345678901234568, 2612345678901234569, 2612345678901234570}
+	mk := func(ver string, ops []Op, fs ...Fault) Scenario {
+		return Scenario{Version: ver, Xids: x, Branches: bs, Refuse: []int{0, 0, 0}, Stream: "clean", Ops: ops, Faults: fs}
+	}
+	for _, ver := range []string{"5.7.30", "8.0.30"} {
+		for _, e := range []bool{false, true} {
+			for _, c := range []bool{true, false} {
+				for _, st := range []bool{false, true} {
+					out = append(out, mk(ver, []Op{{K: "auto"}, {K: "check", Expired: e}, {K: "p2", Target: 0, Commit: c, Stranger: st}}))
+				}
+			}
+			out = append(out, mk(ver, []Op{{K: "auto"}, {K: "check", Expired: e}, {K: "p2", Target: 0, Commit: false}}, Fault{Kind: "START", Nth: 0}))
+			out = append(out, mk(ver, []Op{{K: "auto"}, {K: "auto", G: 1}, {K: "check", Expired: e}, {K: "p2", Target: 1, Commit: true}},
+				Fault{Kind: "STMT", Nth: 0}, Fault{Kind: "END", Nth: 0}))
+			out = append(out, mk(ver, []Op{{K: "auto"}, {K: "auto", G: 1, Reuse: true, Target: 0}, {K: "check", Expired: e},
+				{K: "p2", Target: 0, Commit: false}, {K: "p2", Target: 1, Commit: true}}, Fault{Kind: "START", Nth: 0}))
+			out = append(out, mk(ver, []Op{{K: "auto"}, {K: "auto", G: 1}, {K: "check", Expired: e}, {K: "check", Expired: true},
+				{K: "p2", Target: 1, Commit: false}, {K: "p2", Target: 0, Commit: true}, {K: "retire", Target: 0}}))
+			out = append(out, mk(ver, []Op{{K: "auto", Db: true}, {K: "retry"}, {K: "retry"}, {K: "check", Expired: e},
+				{K: "p2", Target: 1, Commit: true}, {K: "p2", Target: 0, Commit: false}}, Fault{Kind: "START", Nth: 0, Err: "badconn"}))
+		}
+	}
+	return out
+}
+
 func findingScenarios(r *hutil.Rng) []Scenario {
 	var out []Scenario
 	x := genXid(r, false)
@@ -466,6 +507,7 @@ func Run(args map[string]string) {
 		scs = append(scs, enumReuse()...)
 		scs = append(scs, enumPool()...)
 		scs = append(scs, enumLongXid()...)
+		scs = append(scs, enumCheck()...)
 		rc := r.Fork(1)
 		for i := 0; i < n; i++ {
 			scs = append(scs, genScenario(rc, "clean"))
